@@ -9,7 +9,7 @@ LEVEL = "exploration"
 RULE = ("float/int/bool arrays of 1-4 dims; block 'shapes' enumerates every shape over sizes 1-4 (340 shapes) with one random (function, "
         "axis form, skipna, NaN pattern) each per pass, random block draws shape, NaN pattern {none, sparse, dense, an all-NaN slice, all NaN}, "
         "function in {sum,prod,mean,var,std,min,max,ptp,all,any,median,percentile}, axis given by {name, position, None, tuple of names in "
-        "any order}, skipna. class = (function, skipna, axis form, dtype kind, NaN pattern, ndim, #reduced, result all-ones?); trivial = none")
+        "any order}, skipna (Python or NumPy boolean). class = (function, skipna, axis form, dtype kind, NaN pattern, ndim, #reduced, result all-ones?); trivial = none")
 ANCHORS = ["transform.apply_along_axis", "transform._get_func", "transform._deal_with_axis", "transform._median_with_nan", "stats.percentile"]
 # entry points the workload calls itself; the other anchors are helpers behind them (counted as evidence only)
 ANCHORS_REQUIRED = ["stats.percentile"]
